@@ -14,6 +14,33 @@ COMMON_TRUSTED = [
 ]
 
 PROPS = {
+    "C01": {
+        "gen": ["Numeric"],
+        "thm_module": "NutsModel.Thm.C01",
+        "namespace": "NutsModel.C01",
+        "theorems": [
+            "logaddexp_spec", "logaddexp_comm", "exp_logaddexp", "coin_half", "prob_total",
+            "mergeInto_eq", "takeOther_main", "takeOther_sub", "takeOther_bernOk",
+            "sub_multinomial", "min_div_symm", "main_balance",
+            "back_wordOf", "wordOf_back", "kernel_balance",
+        ],
+        "harness": "C01",
+        "level": "proof",
+        "rule": ("(a) logaddexp on special values, equal/near-equal/far-apart arguments; (b) random scripted orbits (energy "
+                 "profile, U-turn table, optional faults) x tree options x random RNG tapes run through the REAL nuts::draw "
+                 "against a mock Hamiltonian: every Hamiltonian call, every merge (depth, main flag, draw index, log_size "
+                 "bits), every Bernoulli threshold (measured on the implementation by bisection of the RNG word) and the "
+                 "result are replayed by Model/Tree.lean; (c) exact transition kernel of the implementation on small "
+                 "orbits by exhaustive enumeration of direction words and Bernoulli outcomes, tested for detailed balance "
+                 "and mirrored-trajectory symmetry. distinct_nontrivial = distinct trajectories with >=1 U-turn verdict "
+                 "true and >1 RNG call, plus distinct (orbit,start,target) kernel pairs with K(s,i)>0."),
+        "trusted": [
+            "C01: proved: logaddexp (translated) = log(e^a+e^b); the model's merge_into accepts with min(1,W_o/W_s) (main) resp. W_o/(W_s+W_o) (sub-tree) and never passes p outside [0,1] to random_bool; on the perfect-binary-tree abstraction: sub-trees multinomial, detailed balance inside a trajectory, direction word <-> start offset bijection, reversibility of any start-independent mixture of windows",
+            "C01: NOT proved in Lean: that Model/Tree.lean's buildOther/extend/draw compute exactly subPmf/mainPmf of the window's tree and that window validity is start-independent (the refinement lemma); this step is covered by the bit-exact correspondence of Model/Tree.lean with the real nuts::draw and by the implementation-level exact-kernel detailed-balance check",
+            "C01: the measure-theoretic lift from per-orbit detailed balance to invariance of pi on R^d x R^d (volume preservation + Fubini) is argued in DESIGN.md, not formalised; divergent trajectories excluded as in the property",
+            "C01: uniform RNG words => Bernoulli(p) true with probability floor(p 2^64)/2^64, coin 1/2 (rand 0.10 decoding rules are modelled in Model/Rand.lean and validated by the threshold measurements)",
+        ],
+    },
     "C07": {
         "gen": ["Numeric"],
         "thm_module": "NutsModel.Thm.C07",
